@@ -80,15 +80,28 @@ func init() {
 		engNote, "call-shape rule on SSA + cursor engine (byte-exact token text on each return path)", "DESIGN.md 4/C07",
 		"Decided: R-REUSE, R-SPELL(css). Not decided: the token grammar beyond fixed spellings (value-level).")
 	claim("C10", "other",
-		"json.Parser.Next: Start/End units spell exactly { } [ ] on every path (R-SPELL); cursor safety and progress are decided under C01. Nesting/State() stack discipline (R-STACK/R-STARTEND) is not yet registered; acceptance of all valid documents and byte-exact reconstruction are not decided.",
+		"json.Parser.Next: Start/End units spell exactly { } [ ] on every path (R-SPELL); cursor safety and progress are decided under C01. The container stack keeps its bottom ValueState and is popped only under a container top state (R-STACK); acceptance of all valid documents and byte-exact reconstruction are not decided.",
 		engNote, "cursor engine (byte-exact token text on each return path)", "DESIGN.md 4/C10",
-		"Decided: R-SPELL(json). Not decided: validity/reconstruction (value-level), container-state typestate.")
+		"Decided: R-SPELL(json), R-STACK(json). Not decided: validity/reconstruction (value-level).")
 	claim("C11", "other",
 		"xml.Lexer.Next: attribute tokens are returned only when the lexer was inside a tag and stays inside; start-tag tokens enter the tag state, closing tokens leave it, content tokens neither (R-TAGSTATE, for every path, by abstract interpretation with the inTag field tracked); closing tokens spell > /> ?> exactly (R-SPELL). Agreement with encoding/xml is not decided.",
 		engNote, "cursor engine with abstract heap for the inTag field", "DESIGN.md 4/C11",
 		"Decided: R-TAGSTATE(xml), R-SPELL(xml). Not decided: token-per-construct conformance (value-level). Note: an embedded NUL is reported as an error (never a silent end) but is then reported forever: see the C01 known finding.")
-	claim("C03", "other", "(in progress) parser path rules", "", "typestate dataflow over SSA paths", "DESIGN.md 4/C03", "in progress")
-	claim("C04", "other", "(in progress) scope pairing rules", "", "typestate dataflow over SSA paths", "DESIGN.md 4/C04", "in progress")
-	claim("C05", "other", "(in progress)", "", "dominance rules on SSA", "DESIGN.md 4/C05", "in progress")
-	claim("C08", "other", "(in progress)", "", "typestate rules on SSA", "DESIGN.md 4/C08", "in progress")
+	claim("C03", "other",
+		"Necessary structural conditions of the grammar claim, each decided for every path of the parser: the operator arms of parseExpressionSuffix/parseExpression implement the ECMAScript precedence table (level, associativity, forbidden mixes: R-PREC, checked against a frozen table and the order of the OpPrec constants); grammar-context flags saved by a construct are restored on every non-error path (R-CTX); nesting counters are balanced (R-LEVEL); every failed Declare becomes a parse error or an audited fallback (R-DECLCHK); js.Parse returns a tree only when no error was recorded and only fail/failMessage write the error (R-ERRTREE); scopes are paired (R-SCOPE). That accepted programs yield THE grammar's tree, ASI, and rejection of bracket mutants are not decided.",
+		"R-PREC depends on the shape of the precedence-climbing switch (an arm that cannot be parsed is reported as undecided). Error paths are recognised by calls of fail/failMessage, a false consume(), p.err != nil, p.tt == ErrorToken and the depth guards.",
+		"typestate dataflow over SSA paths (sets of small state vectors per block) + AST extraction of the precedence ladder compared with a frozen ECMAScript table", "DESIGN.md 4/C03",
+		"Decided: R-PREC, R-CTX, R-LEVEL, R-DECLCHK, R-ERRTREE, R-SCOPE. Not decided: tree shape for all programs, ASI, cover-grammar conversion, bracket-mutation rejection (need a generator with an independent oracle).")
+	claim("C04", "other",
+		"Necessary structural conditions of scope resolution, for every path: every scope entered during parsing is exited exactly once with its own parent on every non-error path (R-SCOPE); MarkFuncArgs runs exactly once after every parameter list and MarkForStmt exactly once between a loop head and its body (R-MARK); a conflicting redeclaration is never silently accepted (R-DECLCHK). The binding semantics themselves (hoisting, shadowing, Uses counts, Link forwarding) are value-level and not decided.",
+		"Error paths as for C03.", "typestate dataflow over SSA paths", "DESIGN.md 4/C04",
+		"Decided: R-SCOPE, R-MARK, R-DECLCHK. Not decided: which Var an identifier resolves to, Uses counts, alpha-equivalence.")
+	claim("C05", "other",
+		"Necessary structural conditions of the printing claim: every []byte field that may contain a line break (comments, string/template/regexp literals, directive prologues, module specifiers) is written by JS() to a writer that cannot be an Indenter, Indenters are built only by NewIndenter which unwraps a nested Indenter (R-INDENT: the 'whatever the indentation level' clause); printing/JSON conversion never dereferences an optional field or a failed type assertion (R-NILFIELD, R-ASSERT). The round trip itself, parenthesisation and token separation are not decided.",
+		"Which fields may contain line breaks is a frozen table (DESIGN.md).", "writer-provenance and dominance rules on SSA", "DESIGN.md 4/C05",
+		"Decided: R-INDENT, R-NILFIELD, R-ASSERT. Not decided: print/re-parse equality, parentheses, spacing between tokens (value-level).")
+	claim("C08", "other",
+		"For every path of the CSS parser: the state stack never loses its bottom element (pops only inside pushed state functions or under 1 < len(state); pushed functions are never called directly; at most one pop per path: R-STACK); every push returns the matching Begin unit and every pop of a pushed state returns the matching End unit, error-recovery pops record a parse error (R-BEGINEND); with a block open Next never returns ErrorGrammar without a recorded parse error, i.e. the end of input is never reported before the open blocks are closed (R-EOFNEST, abstract interpretation of Parser.Next for each pushed state with the lexer as a black box); the at-rule name hash agrees with its table (T-HASH). That the units are THE units of the source and the whitespace rules are not decided.",
+		"R-EOFNEST models token types as finite sets and the parser's err string by emptiness; the lexer may return any token type.", "typestate rules on SSA + abstract interpretation of the parser state machine with enum-set and stack-depth facts", "DESIGN.md 4/C08",
+		"Decided: R-STACK(css), R-BEGINEND, R-EOFNEST, T-HASH(css). Not decided: unit boundaries, Values() contents, whitespace normalisation, custom-property text (value-level).")
 }
